@@ -545,7 +545,7 @@ P('C06', 'other',
   "profiles are added."
   + NOT_DECIDED + "independence of floating-point summation order; equality of the D&C sum to the mean at every time (needs C09 as values).",
   [],
-  {'R06.1': 18, 'R06.2': 6, 'R06.3': 7, 'R06.4': 8, 'R06.5': 12, 'R06.7': 6})
+  {'R06.1': 18, 'R06.2': 3, 'R06.3': 7, 'R06.4': 8, 'R06.5': 12, 'R06.7': 6})
 
 P('C07', 'other',
   [lambda c: merge_idiom_obs(c, [f for f in eng(c).families if not f.wrapper.cls], 'R07.0'),
